@@ -215,6 +215,11 @@ def unstring_annotation(node: ast.expr, ctx:'model.Documentable', section:str='a
         return node
     else:
         assert isinstance(expr, ast.expr), expr
+        # The nodes parsed from the strings do not have their 'parent' attribute yet:
+        # the colorizer needs it to decide where parenthesis are required.
+        parent = getattr(node, 'parent', None)
+        Parentage().visit(expr)
+        setattr(expr, 'parent', parent)
         return expr
 
 class _AnnotationStringParser(ast.NodeTransformer):
